@@ -12,10 +12,15 @@ GenInit ==
   /\ \E kv \in GenKeys : ck = SubSeq(kv, 1, n)
   /\ same => Distinct(ck)
   /\ cm = IF same THEN [i \in 1..n |-> 1] ELSE SubSeq(GenMsgs, 1, n)
-GenNext == \/ \E i \in 1..MaxN : \/ \E d \in Deltas : CorruptDelta(i, d)
-                                 \/ \E k \in WrongKeys : WrongKey(i, k)
-                                 \/ \E m \in WrongMsgs : WrongMsg(i, m)
-                                 \/ \E j \in 1..MaxN : TakeOther(i, j)
+(* mixed corruptions of at most GenMaxMixed positions; beyond that only purely additive errors (the *)
+(* three-way cancelling family sigma_1 + D, sigma_2 + D, sigma_3 - 2D), up to MaxTouched positions   *)
+CONSTANT GenMaxMixed
+GenMixedOK == Cardinality(touched) < GenMaxMixed
+GenDeltaOK == GenMixedOK \/ \A i \in touched : dl[i] # 0
+GenNext == \/ \E i \in 1..MaxN : \/ GenDeltaOK /\ \E d \in Deltas : CorruptDelta(i, d)
+                                 \/ GenMixedOK /\ \E k \in WrongKeys : WrongKey(i, k)
+                                 \/ GenMixedOK /\ \E m \in WrongMsgs : WrongMsg(i, m)
+                                 \/ GenMixedOK /\ \E j \in 1..MaxN : TakeOther(i, j)
            \/ \E b \in 1..n : StartVerify(b)
 GenSpec == GenInit /\ [][GenNext]_vars
 GPrint == phase = "agg" =>
